@@ -35,6 +35,13 @@ def inputs(tier):
         reps += list(F.undirected([1, 2, 3], 2))
     out += reps
     out += [F.with_empty_edge(F.H([[1, 2], [2, 3]]))]
+    # attribute values of every container type (sets are what merge_duplicate_edges(merge_rule="union") produces)
+    rich_n = {1: {"tags": {"a", "b"}, "pos": (0.5, [1, 2]), "k": [1, {"z": 2}], "f": frozenset({1}), "x": None},
+              4: {"tags": set(), "w": 1.5}}
+    rich_e = {0: {"color": {"blue", "red"}, "weight": {None, 2}, "t": (1, {"k": [2]})}, 1: {"l": [1, 2], "d": {"a": {"b": [3]}}}}
+    out += [F.H([[1, 2, 3], [3, 4]], nodes=[1, 2, 3, 4, 5], nattr=rich_n, eattr=rich_e, net={"meta": {"s": {1, 2}}, "t": (1, [2])}),
+            F.S([[1, 2, 3], [3, 4]], nodes=[1, 2, 3, 4], nattr=rich_n, eattr=rich_e),
+            F.D([([1, 2], [3]), ([3], [4])], nodes=[1, 2, 3, 4], nattr=rich_n, eattr=rich_e)]
     # complexes
     out += [F.S([[1, 2, 3]]), F.S([[1, 2, 3], [3, 4]]), F.S([[1, 2], [2, 3], [1, 3]]), F.S([[1, 2, 3, 4]], nodes=[1, 2, 3, 4, 5]),
             F.S([["a", "b", "c"], ["c", "d"]]), F.S([], nodes=[1]), F.S([[1, 2, 3], [2, 3, 4]], ids=[5, 2],
@@ -183,7 +190,10 @@ def _combos(fname, f, H, tmp):
     return out
 
 
-def _consume(r):
+_IDS = set()
+
+
+def _consume(r, accessor=False):
     """Exhaust generators; add an element to every *set* handed out by the call (member / membership sets must be
     copies: an internal set returned uncopied shows up as a change of the network).  Attribute dicts are live by
     design and are left alone."""
@@ -192,8 +202,11 @@ def _consume(r):
             r = list(r)
 
         def poke(x, depth=0):
+            if accessor:
+                return  # attribute records are handed out live by design; their values are the caller's business
             if isinstance(x, set):
-                x.add("MUT")
+                if x <= _IDS:  # a set of node / edge IDs: a member or membership set
+                    x.add("MUT")
             elif depth < 2 and isinstance(x, (list, tuple)):
                 for y in list(x)[:4]:
                     poke(y, depth + 1)
@@ -357,6 +370,9 @@ def _run_program(prog):
     for idx, spec in enumerate(_INPUTS):
         H = F.build(spec)
         before = C.state_key(H)
+        _IDS.clear()
+        _IDS.update(H.nodes)
+        _IDS.update(H.edges)
         for label, thunk in _calls_for(kind, name, H, _TMP) or ():
             calls += 1
             raised = None
@@ -364,7 +380,7 @@ def _run_program(prog):
                 warnings.simplefilter("ignore")
                 try:
                     r = thunk()
-                    _consume(r)
+                    _consume(r, accessor=("attrs" in label or label.endswith("[id]") or "getstate" in label or "dumps" in label))
                     ok += 1
                     inputs_ok.add(idx)
                 except RecursionError:
@@ -445,7 +461,8 @@ def replay(case):
         with warnings.catch_warnings():
             warnings.simplefilter("ignore")
             try:
-                _consume(thunk())
+                _IDS.clear(); _IDS.update(H.nodes); _IDS.update(H.edges)
+                _consume(thunk(), accessor=("attrs" in label or label.endswith("[id]")))
             except Exception:  # noqa: BLE001
                 pass
         after = C.state_key(H)
